@@ -191,7 +191,7 @@ def run(tier: str) -> int:
     items.append(dict(name="witness:lib_internal_call", sources=WITNESS_LIB_INTERNAL, tier=tier, opts={}, ce_names=["lc"], timeout=120))
     results = harness.pmap(task, items, nworkers=6)
     seq_items = [dict(name=f"seq:{k}", sequence=v, tier=tier) for k, v in sequence_scenarios().items()]
-    seq_results = harness.pmap(task_seq, seq_items, nworkers=3)
+    seq_results = harness.pmap(task_seq, seq_items, nworkers=3, placeholder=lambda it, st, d: [])
     for spec, rs in zip(seq_items, seq_results):
         for r in rs:
             items.append(dict(name=r["name"], sources=r["sources"], opts={}))
